@@ -25,6 +25,10 @@ def run(tier):
     for prof in ("UsernameCaseMapped", "UsernameCasePreserved", "OpaqueString", "Nickname"):
         k += profiles.fast_invocation(prog, rep, prof)
     rep.floor("static-form methods checked", k, 12)
+    # the Nickname operations are built on stabilize: its contract (C13) is a premise of this property
+    from . import C13
+
+    rep.include(C13.run(tier), "C13")
     rep.extra["exhaustive"] = True
     rep.assumptions += ["Cow<str> == is content equality (std)", "enforce is a function of its argument (C16)"]
     return rep
